@@ -469,10 +469,11 @@ impl Prop for C08Searches {
                 2 => gen::pawn_race().prop_map(move |r| zero(gen::build(&r))),
                 1 => gen::cage_theme().prop_map(move |r| zero(gen::build(&r))),
                 1 => gen::terminal_biased(),
+                1 => gen::pre_terminal(),
                 1 => gen::placement(12).prop_map(move |r| zero(gen::build(&r))),
                 1 => gen::walk(50).prop_map(move |w| zero(gen::walk_end(&w))),
             ],
-            prop_oneof![4 => 1u8..=max_depth, 1 => Just(5u8)],
+            prop_oneof![4 => 1u8..=max_depth, tier.pick(1u32, 3u32) => Just(5u8)],
             prop::collection::vec(any::<u16>(), 0..=6),
             any::<bool>(),
             any::<bool>(),
